@@ -2,7 +2,7 @@
    Over Scorch/Disk.v, for every event list accepted by [drun] from [dinit]. *)
 From Coq Require Import NArith ZArith List Permutation Sorted.
 From Verif Require Import Scorch.Model Scorch.Disk
-  Scorch.ProofsDisk1 Scorch.ProofsDisk4 Scorch.ProofsDisk5 Scorch.ProofsDisk6
+  Scorch.ProofsDisk1 Scorch.ProofsDisk4 Scorch.ProofsDisk5 Scorch.ProofsDisk6 Scorch.ProofsDisk10
   Scorch.Retention Scorch.RetentionProofs Scorch.RetentionProofs2
   Scorch.EpochCodec Scorch.EpochCodecProofs.
 Import ListNotations.
@@ -31,6 +31,30 @@ Theorem C13_rollback_points_are_states : forall evs d,
      /\ forall id, root_lookup rr id = replay (firstn k (eff evs)) id.
 Proof. exact rollback_points_are_states. Qed.
 Print Assumptions C13_rollback_points_are_states.
+
+(* ... identified by the internal values stored with it: the internal values of a rollback point
+   are the SetInternal/DeleteInternal calls of exactly the batches its state consists of, replayed
+   one call at a time ([ieff evs] = the internal calls of the batches in effect, one list per
+   batch, parallel to [eff evs]); so each point carries the values of ITS state (e.g. the sequence
+   number of its last batch), not those of any other point *)
+Theorem C13_rollback_point_internals : forall evs d,
+  drun dinit evs = Some d ->
+  forall r, In r (d_bolt d) ->
+  exists k, assocZ (br_epoch r) (d_nb d) = Some k /\ (k <= length (ieff evs))%nat
+    /\ forall key, assoc_first key (br_int r) = spec_internal (concat (firstn k (ieff evs))) key.
+Proof. exact rollback_point_internals. Qed.
+Print Assumptions C13_rollback_point_internals.
+
+(* after Rollback to the record of epoch e and reopening, the internal values are the ones that
+   point announced: those of the first k batches *)
+Theorem C13_rollback_restores_internals : forall evs d e d1 d2 k,
+  drun dinit evs = Some d ->
+  dstep d (DRollback e) = Some d1 -> dstep d1 DRecover = Some d2 ->
+  assocZ e (d_nb d) = Some k ->
+  exists r, In r (d_bolt d) /\ br_epoch r = e /\ internal (d_core d2) = br_int r
+    /\ forall key, assoc_first key (internal (d_core d2)) = spec_internal (concat (firstn k (ieff evs))) key.
+Proof. exact rollback_restores_internals. Qed.
+Print Assumptions C13_rollback_restores_internals.
 
 Theorem C13_newest_never_purged : forall d eps d',
   dstep d (DPurgeBolt eps) = Some d' -> newest (d_bolt d') = newest (d_bolt d) /\ d_bolt d <> [].
